@@ -212,7 +212,17 @@ def run(ctx):
         # the same filter on both representations (native mapping; Sphinx's named-inventory mapping): each recorded result
         # is a trace of its own -- the matching is the SAME relation for every domain and type (names keep their case)
         sph = {k_: I.to_sphinx(v_) for k_, v_ in native.items()}
-        for rep, fn, data in (("native", I.filter_inventories, native), ("sphinx", I.filter_sphinx_inventories, sph)):
+        # Sphinx's mapping "domain:type" -> names need not keep the types of one domain together: inventory order is the
+        # order of that mapping
+        sph2 = {}
+        for k_, v_ in sph.items():
+            keys = list(v_)
+            rnd.shuffle(keys)
+            sph2[k_] = {kk: v_[kk] for kk in keys}
+        order2 = [[i_, kk.split(":", 1)[0], kk.split(":", 1)[1], n_] for i_, v_ in sph2.items() for kk, names_ in v_.items() for n_ in names_]
+        for rep, fn, data in (("native", I.filter_inventories, native), ("sphinx", I.filter_sphinx_inventories, sph),
+                              ("sphinx-shuffled", I.filter_sphinx_inventories, sph2)):
+            order = order2 if rep == "sphinx-shuffled" else _order(native)
             got = [[m.inv, m.domain, m.otype, m.name] for m in fn(
                 data, invs=flt[0], domains=flt[1], otypes=flt[2], targets=flt[3])]
             try:
@@ -357,6 +367,18 @@ def _replay_link(ctx, rec, k):
         ctx.violation("inv: link must render the first match's location joined to its base URL",
                       {**case, "expected_refuri": exp_uri, "got": [r.get("refuri") for r in refs]})
         return
+    # the same link after another inv: link that is restricted to the LAST configured inventory: the order in which the
+    # inventories are consulted is the configuration's, whatever was looked up before
+    if len(invs_cfg) > 1:
+        last = list(invs_cfg)[-1]
+        src2 = f"<inv:{last}#*>\n\n{text}\n"
+        doc2, warns2 = docutils_doctree(src2, {"myst_inventories": invs_cfg})
+        refs2 = [r for r in doc2.findall(nodes.reference)]
+        tags2 = [w["tag"] for w in warns2 if w["tag"] and w["tag"].startswith("myst.iref") and w["line"] == 3]
+        if not refs2 or refs2[-1].get("refuri") != exp_uri or sorted(tags2) != exp_warn:
+            ctx.violation("an inv: link resolves differently after an earlier inv: link to another inventory in the same document",
+                          {**case, "source": src2, "expected_refuri": exp_uri, "got": [r.get("refuri") for r in refs2], "got_warn": tags2})
+            return
     exp_text = "explicit" if explicit else (item["text"] or e[3])
     if refs[0].astext() != exp_text:
         ctx.violation("inv: link text differs (explicit text, else the entry's display name, else its name)",
